@@ -1,4 +1,5 @@
 import MypyVerif.Proofs.Codec
+import MypyVerif.Proofs.CodecSkip
 import MypyVerif.Gen.Schemas
 /-!
 # C11 — cache serialisation is faithful in both formats
@@ -154,6 +155,56 @@ theorem schema_roundtrip (fuel : Nat) (cls : String) (v : Val) (rest : Bytes)
 
 /-- nothing was dropped silently: every class with a write/read pair is extracted, hand-modelled or listed -/
 theorem extraction_total : Gen.uncovered = [] ∧ Gen.handModelled = [] ∧ 30 ≤ Gen.extracted.length := by decide
+
+/-! ## lazily deserialised symbols: `extract_symbol` -/
+
+/-- **extract_enc**: for every environment whose entries are classified by `κ` and accepted by `skipOK`
+    (`kindOK`), the C skipper (`_skip_class`, model `extractSymbol`) applied to the bytes of a class body
+    followed by anything returns exactly the class body and leaves exactly the rest — for every value,
+    every nesting depth, given fuel at least the number of bytes. -/
+theorem extract_enc (env : Env) (κ : String → Kind) (hk : ∀ n, kindOK κ (κ n) (env n) = true)
+    (fuel : Nat) (cls : String) (v : Val) (rest : Bytes) (hκ : κ cls = .body)
+    (hw : wt env fuel (env cls) v = true) (F : Nat) (hF : (enc env fuel (env cls) v).length ≤ F) :
+    extractSymbol F (enc env fuel (env cls) v ++ rest) = some (enc env fuel (env cls) v, rest) :=
+  extract_enc_aux env κ hk fuel cls v rest hκ hw F hF
+
+def kindOf : String → Kind := kindOfL Gen.kinds
+
+/-- (generated obligation) every extracted write codec is, in the position the skipper meets it, made of
+    tagged objects only: no bare field inside a class body, every dispatch table keyed by tags the C
+    skipper knows, every class body closed by END_TAG. -/
+theorem schemas_skippable :
+    (Gen.schemas.all fun e => kindOK kindOf (kindOf e.1) e.2.1) = true ∧
+    (Gen.kinds.all fun k => Gen.schemas.any fun e => e.1 == k.1) = true ∧
+    (Gen.lazyClasses.all fun c => kindOf c == .body) = true := by decide
+
+/-- **lazy_extraction_exact**: for every class that `SymbolTableNode.read` keeps as raw bytes
+    (`extract_symbol`) — Var, FuncDef, Decorator, OverloadedFuncDef, TypeVarExpr, TypeAlias, ParamSpecExpr,
+    TypeVarTupleExpr — and every value of its extracted write codec, the extracted bytes are exactly the
+    node: so parsing them later (`read_symbol`) is `schema_roundtrip` again. -/
+theorem lazy_extraction_exact (fuel : Nat) (cls : String) (hc : cls ∈ Gen.lazyClasses) (v : Val) (rest : Bytes)
+    (hw : wt envW fuel (envW cls) v = true) (F : Nat) (hF : (enc envW fuel (envW cls) v).length ≤ F) :
+    extractSymbol F (enc envW fuel (envW cls) v ++ rest) = some (enc envW fuel (envW cls) v, rest) := by
+  have hk := kinds_ok Gen.schemas Gen.kinds schemas_skippable.1 schemas_skippable.2.1
+  have hκ : kindOf cls = .body := by
+    have := List.all_eq_true.mp schemas_skippable.2.2 cls hc
+    simpa using this
+  exact extract_enc envW kindOf hk fuel cls v rest hκ hw F hF
+
+-- non-vacuity: a body with a tagged str, an optional tagged int, flags and a nested list of such bodies
+def demoSkipEnv : Env := fun n =>
+  if n = "B" then C.seq [.lit 4, .field "name" .str, .field "n" (C.table [(2, .unit), (3, .int)]), .flags 3,
+                         .lit 20, .field "kids" (.list (C.table [(60, .ref "B")])), .lit 255] else .fail
+def demoSkipVal : Val :=
+  Val.seq [.unit, .fld "name" (.str [104, 105]), .fld "n" (.variant 3 (.int 70000)), .flags [true, false, true],
+           .unit, .fld "kids" (.cons (.variant 60 (Val.seq [.unit, .fld "name" (.str []), .fld "n" (.variant 2 .unit),
+              .flags [false, false, false], .unit, .fld "kids" .nil, .unit])) .nil), .unit]
+example : kindOK (fun n => if n = "B" then .body else .other) .body (demoSkipEnv "B") = true := by decide
+example : wt demoSkipEnv 3 (demoSkipEnv "B") demoSkipVal = true := by decide
+example : extractSymbol 40 (enc demoSkipEnv 3 (demoSkipEnv "B") demoSkipVal ++ [7, 7]) =
+    some (enc demoSkipEnv 3 (demoSkipEnv "B") demoSkipVal, [7, 7]) := by decide
+-- a bare field inside a class body is rejected by the obligation
+example : kindOK (fun _ => .other) .body (C.seq [.int, .lit 255]) = false := by decide
 
 /-! ## JSON format -/
 
